@@ -347,6 +347,8 @@ def main(run):
     hist.append((dict(M=(2, 0), C=(4, 0), H=(1, 0), K=(1, 0)),
                  [("Load", 65), ("Edit", "M", 7, 1), ("Load", 64), ("Load", 65), ("Edit", "C", 9, 2), ("Load", 64), ("Load", 65),
                   ("Edit", "M", 27, 3), ("Load", 65), ("Load", 64), ("Edit", "M", 2, 4), ("Load", 64), ("Load", 65)]))
+    # ... and the recorded finding K17-sasview-template, every run: the SasView-style loader, a template edit, the same loader
+    hist.append((dict(M=(3, 0), C=(2, 0), H=(1, 0), K=(1, 0)), [("Load", 65), ("Edit", "H", 4, 1), ("Load", 65)]))
     n = 8 if not thorough else 110
     for _ in range(n):
         hist.append(gen_history(rng, rng.randint(4, 12)))
@@ -382,6 +384,13 @@ def main(run):
                     run.add(Finding("C17:load-error", "history %s: load raised: %s" % (r["ops"], r["errors"][:1]), desc))
                     break
                 if tuple(got) != now:
+                    if op[1] == 65 and tuple(got)[:2] == now[:2]:
+                        # recorded finding K17-sasview-template: the SasView-style loader keeps the compiled kernel of its
+                        # cached class when only a kernel TEMPLATE changed (the plug-in module itself was not reloaded)
+                        run.add(Finding("C17:stale:sasview-template", "after history %s: sasview_model.load_custom_model evaluated kernel templates %s, the files hold %s (definition and included C file are current)" % (
+                            r["ops"][:oi + 1], list(got)[2:], list(now)[2:]), desc))
+                        r["known_template_staleness"] = True
+                        break
                     run.add(Finding("C17:stale", "after history %s (initial files %s) the load evaluated (model, C, kernel_header, kernel_iq) texts %s but the files hold %s" % (
                         r["ops"][:oi + 1], r["init"], list(got), list(now)), desc))
                     break
@@ -402,6 +411,8 @@ def main(run):
             if o[0] == "Edit":
                 return "Edit%s %d %d" % (o[1], o[2], o[3])
             return "Fresh" if o[0] == "Fresh" else "Load %d" % (64 if o[1] == 65 else o[1])
+        res_all = res
+        res = [r for r in res_all if not r.get("known_template_staleness")]     # (reported above as the recorded finding)
         body = ";\n".join("(%s, %s, %s, %s)" % (
             ", ".join("MkFile %d %d" % tuple(r["init"][f]) for f in FILES), coq_list(["(%s)" % opc(o) for o in r["ops"]], "op"),
             coq_list(["(%d, %d, %d, %d)" % tuple(x) for x in r["observed"]], "(nat * nat * nat * nat)"), len(r["libs"])) for r in res)
